@@ -330,6 +330,24 @@ impl Inner {
     // KML / KQL route
     // -----------------------------------------------------------------------------------------
 
+    /// One subject with one Proposition per listed number, through `MUTATE`.
+    async fn kml_slot(&mut self, cs: &mut CaseState, tag: &str, functional: bool, props: &[usize]) -> Result<String, String> {
+        let predicate = if functional { "status" } else { "mentions" };
+        let mut cmd = format!("MUTATE {{\n CREATE CONCEPT ?svc {{ TYPE \"Service\" NAME \"svc-{tag}\" }}\n");
+        for p in props {
+            cmd.push_str(&format!(" CREATE CONCEPT ?v{p} {{ TYPE \"Status\" NAME \"val-{tag}-{p}\" }}\n ENSURE PROPOSITION ?p{p} (?svc, \"{predicate}\", ?v{p})\n"));
+        }
+        cmd.push('}');
+        let res = exec(&self.nexus, &cmd, json!({})).await?;
+        for p in props {
+            if let Some(Ok(id)) = res["handles"][format!("p{p}")].as_str().map(|s| s.parse::<ElementId>()) {
+                cs.props.insert(*p, id);
+                cs.prop_of.insert(id.to_string(), *p);
+            }
+        }
+        Ok(res["handles"]["svc"].as_str().unwrap_or("").to_string())
+    }
+
     /// The same ops, but every write is a KML command and every read a KQL `FIND … BELIEF`.
     async fn run_kml(&mut self, ops: &[Op]) -> Vec<String> {
         self.kml_counter += 1;
@@ -365,23 +383,8 @@ impl Inner {
                 Op::Now(t) => { cs.now = *t; "ok".into() }
                 Op::Slot { functional, props } => {
                     cs.functional = *functional;
-                    let predicate = if *functional { "status" } else { "mentions" };
-                    let mut cmd = format!("MUTATE {{\n CREATE CONCEPT ?svc {{ TYPE \"Service\" NAME \"svc-{tag}\" }}\n");
-                    for p in props {
-                        cmd.push_str(&format!(" CREATE CONCEPT ?v{p} {{ TYPE \"Status\" NAME \"val-{tag}-{p}\" }}\n ENSURE PROPOSITION ?p{p} (?svc, \"{predicate}\", ?v{p})\n"));
-                    }
-                    cmd.push('}');
-                    match exec(&self.nexus, &cmd, json!({})).await {
-                        Ok(res) => {
-                            subject_id = res["handles"]["svc"].as_str().unwrap_or("").to_string();
-                            for p in props {
-                                if let Some(Ok(id)) = res["handles"][format!("p{p}")].as_str().map(|s| s.parse::<ElementId>()) {
-                                    cs.props.insert(*p, id);
-                                    cs.prop_of.insert(id.to_string(), *p);
-                                }
-                            }
-                            "ok".into()
-                        }
+                    match self.kml_slot(&mut cs, &tag, *functional, props).await {
+                        Ok(svc) => { subject_id = svc; "ok".into() }
                         Err(e) => format!("err:slot {e}"),
                     }
                 }
@@ -401,6 +404,9 @@ impl Inner {
                                 Err(err) => { out.push(format!("err:evidence {err}")); continue 'ops }
                             }
                         }
+                    }
+                    if !cs.props.contains_key(&r.prop) {
+                        let _ = self.kml_slot(&mut cs, &format!("{tag}-lonely{}", r.prop), false, &[r.prop]).await;
                     }
                     let Some(pid) = cs.props.get(&r.prop).copied() else { out.push("err:prop".into()); continue 'ops };
                     let mut fields = format!("proposition: :p, asserted_by: :actor, stance: \"{}\", mode: \"{}\"", stance_name(r.stance), mode_name(r.mode));
@@ -435,13 +441,17 @@ impl Inner {
                     None => "ok".into(),
                 },
                 Op::Project(t) => {
+                    if !cs.props.contains_key(t) {
+                        let _ = self.kml_slot(&mut cs, &format!("{tag}-lonely{t}"), false, &[*t]).await;
+                    }
                     let Some(pid) = cs.props.get(t).copied() else { out.push("err:prop".into()); continue 'ops };
-                    let cmd = format!("FIND(?b) WHERE {{ ?b BELIEF (:p) }} FOR TIME \"{}\"{epistemic}", ts(cs.now));
+                    let cmd = format!("FIND(?b) WHERE {{ ?b BELIEF (id: :p) }} FOR TIME \"{}\"{epistemic}", ts(cs.now));
                     match exec(&self.nexus, &cmd, json!({"p": pid.to_string()})).await {
                         Ok(res) => res.as_array().and_then(|a| a.first()).map(|j| render_json(&cs, j, None)).unwrap_or_else(|| "err:empty".into()),
                         Err(e) => format!("err:find {e}"),
                     }
                 }
+                Op::SlotProject if subject_id.is_empty() => "-".into(),
                 Op::SlotProject => {
                     let predicate = if cs.functional { "status" } else { "mentions" };
                     let cmd = format!("FIND(?slot) WHERE {{ ?slot BELIEF SLOT (:svc, \"{predicate}\") }} FOR TIME \"{}\"{epistemic}", ts(cs.now));
